@@ -117,7 +117,7 @@ def main(tier):
            'exhaustive': True, 'mask_calls': mask_calls, 'strings': nstr, 'string_length_bound': L, 'accepted_plain': tot.get('accepted_plain'),
            'accepted_with_mask': tot.get('accepted_with_mask'), 'both_parsers_accept': tot.get('both_parsers_accept'), 'grammar_cases': len(cases),
            'class_rule_probes': rule_cases, 'ubsan_reports_logged': ub, 'odd_texts_accepted_not_raised': accepted_odd}
-    if nstr < 1000000 and not run.violations:
+    if nstr < 1000000 and not run.violations and not run.capped:
         raise common.HarnessError('vacuous: only %d strings' % nstr)
     return run.finish(cov, assumptions=['alphabet restricted to 11 characters that reach every branch of the parser; longer strings only through the grammar-derived set',
                                         'UB that touches no memory (shift count for a fifth dotted component) is logged, not raised: the statement forbids touching foreign memory'])
